@@ -423,8 +423,38 @@ def is_diag_result(ty):
     return bool(ty) and DIAG in ty and "Result<" in ty and "ControlFlow" not in ty
 
 
+def _consumed_locals(body):
+    """locals that occur somewhere other than as the receiver of is_ok()/is_err() or as the target of an assignment: such a local is still handed on
+    (returned, `?`-ed, matched), so testing it with is_ok() does not throw its diagnostics away"""
+    out = set()
+
+    def rec(n, parent, key):
+        if isinstance(n, list):
+            for x in n:
+                rec(x, parent, key)
+            return
+        if not isinstance(n, dict):
+            return
+        if n.get("k") == "path" and (n.get("res") or {}).get("dk") == "Local":
+            test_only = parent is not None and parent.get("k") == "mcall" and key == "recv" and parent.get("name") in ("is_ok", "is_err")
+            assigned = parent is not None and parent.get("k") in ("assign", "assignop") and key == "l"
+            if not test_only and not assigned:
+                out.add(lib.hpath(n))
+            return
+        for k2, v in n.items():
+            if isinstance(v, (dict, list)):
+                # look through address-of
+                if isinstance(v, dict) and v.get("k") == "addrof":
+                    rec(v["a"], n, k2)
+                else:
+                    rec(v, n, k2)
+    rec(body, None, None)
+    return out
+
+
 def discard_sites(f):
     """HIR sites in f that throw a Result<_, Diagnostics> away; yields (kind, line, description)"""
+    consumed = None
     for n in lib.hwalk(f.hir["body"]):
         k = n.get("k")
         if k == "let" and n["pat"].get("k") == "wild" and is_diag_result(lib.strip(n.get("init", {})).get("ty")):
@@ -443,6 +473,12 @@ def discard_sites(f):
                         yield "err_", a.get("ln"), "`Err(_)` arm ignores the diagnostics"
         if k == "mcall" and n.get("name") in ("ok", "unwrap_or", "unwrap_or_default", "is_ok", "is_err", "unwrap_or_else", "err") and \
                 is_diag_result(lib.strip(n["recv"]).get("ty")) and (lib.strip(n["recv"]).get("ty") or "").startswith("core::result::Result<"):
+            r = lib.strip(n["recv"])
+            if n["name"] in ("is_ok", "is_err") and r.get("k") == "path" and (r.get("res") or {}).get("dk") == "Local":
+                if consumed is None:
+                    consumed = _consumed_locals(f.hir["body"])
+                if lib.hpath(r) in consumed:
+                    continue      # a test of a local that is still handed on afterwards
             yield n["name"], n.get("ln"), ".%s() on a result discards its diagnostics" % n["name"]
         if k == "if" and lib.strip(n["cond"]).get("k") == "letx":
             lx = lib.strip(n["cond"])
